@@ -9,6 +9,12 @@ U0 = [(1, 1, [1], "start"), (2, 1, [2], "msg"), (3, 1, [3, 1], "start"), (4, 1, 
 U1 = [(1, 1, [1], "start"), (2, 1, [2, 1], "start"), (3, 1, [2, 2], "msg"), (4, 1, [2, 3], "end"), (5, 1, [3], "msg"),
       (6, 1, [4], "end"), (7, 2, [1], "start"), (8, 2, [2, 1], "start"), (9, 2, [2, 2], "end"), (10, 2, [3], "end"), (11, 3, [1], "msg")]
 
+# a wide action: child actions at positions 2 and 20..22 (string prefixes /2 vs /20 are confusable), messages in between
+U2 = [(1, 1, [1], "start"), (2, 1, [2, 1], "start"), (3, 1, [2, 2], "msg"), (4, 1, [2, 3], "end")]
+U2 += [(5 + i, 1, [3 + i], "msg") for i in range(17)]                                   # positions 3..19
+U2 += [(22, 1, [20, 1], "start"), (23, 1, [20, 2], "msg"), (24, 1, [20, 3], "end"), (25, 1, [21, 1], "start"), (26, 1, [21, 2], "end"),
+       (27, 1, [22], "msg"), (28, 1, [23], "end"), (29, 2, [1], "start"), (30, 2, [2, 1], "start"), (31, 2, [2, 2], "end"), (32, 2, [3], "end")]
+
 PROFILE = dict(feat={"task", "finish", "ctx", "alog", "remote", "tb", "spawn"}, nctx=2, ndest=1, init=[1], minlen=4, maxlen=16, close=0.8,
                w_fin_ctx=0.0)
 
@@ -63,6 +69,8 @@ def run(prop, tier):
             for _ in range(4 if tier == "quick" else 40):
                 trials.append({"allperm": rng.sample([m["id"] for m in uni], 5 if tier == "quick" else 6)})
             cases.append({"universe": uni, "trials": trials})
+        uni = [{"id": i, "u": u, "lv": lv, "k": k_} for (i, u, lv, k_) in U2]
+        cases.append({"universe": uni, "trials": [{"random": 120 if tier == "quick" else 4000, "seed": rng.randint(0, 10 ** 9)}]})
         # (b) universes emitted by the real library for random programs (remote sub-tasks, failures, several tasks)
         progs = engine_eliot.random_programs(PROFILE, 60 if tier == "quick" else 1200, SEED + 5)
         for p in progs:
